@@ -33,7 +33,7 @@ import hippolyzer.lib.base.datatypes as dtypes
 import hippolyzer.lib.base.serialization as se
 
 from hmc import introspect as ins
-from hmc.introspect import IntrospectionError, priv  # noqa: F401  (re-exported for the property module)
+from hmc.introspect import IntrospectionError, priv, template_members  # noqa: F401  (re-exported for the property module)
 
 INT_FMT = {"U8": "<B", "S8": "<b", "U16": "<H", "S16": "<h", "U32": "<I", "S32": "<i", "U64": "<Q", "S64": "<q"}
 INT_BITS = {"U8": 8, "S8": 8, "U16": 16, "S16": 16, "U32": 32, "S32": 32, "U64": 64, "S64": 64}
@@ -504,7 +504,7 @@ class Domain:
 
     # -- containers
     def _v_Template(self, spec, ctx):
-        return self._fields(list(priv(spec, "_template_spec", "spec-dict").items()))
+        return self._fields(template_members(spec))
 
     def _fields(self, items: List[Tuple[str, Any]]) -> List[Variant]:
         names = [n for n, _ in items]
